@@ -1028,6 +1028,7 @@ def family_cases(thorough: bool = False) -> list[tuple]:
     for carrier in range(len(NEST_INDICES)):
         cases.append(("nested", carrier))
     cases.append(("nested", 0, 1))
+    cases.append(("nested", 0, 2))
     for which_id in range(len(FC_IDS)):
         for sender in range(len(FC_SENDERS)):
             cases.append(("forged-created", which_id, sender))
@@ -1214,12 +1215,15 @@ def _run_simfirst(seed: int, indices: tuple, order: tuple, gap: int,
 NEST_INDICES = [0, 4, 2, 1]                # O1: two circuits through R1 and one through R2; O2: one through R1
 
 
+# the carrying circuit's originator X1 is at the same time the exit of O1's and the last relay's successor of O2's circuit
+HUB_PLANS = [("X1", ("X2",), (31,)), ("O1", ("X1",), (1,)), ("O2", ("R1", "X1"), (51, 52))]
 ZERO_ID_PLANS = [("O1", ("R1", "X1"), (0, 31)), ("O1", ("R2", "X2"), (41, 42)), ("O2", ("R1", "X2"), (51, 52))]
 
 
 def _run_nested(seed: int, carrier: int, zero: int = 0) -> tuple[list[tuple], str, bytes, int]:
     """zero: the carrying circuit's id at its originator is 0 (a legal 32-bit circuit id like any other)."""
-    world = (World5(len(ZERO_ID_PLANS), seed, custom=ZERO_ID_PLANS) if zero
+    world = (World5(len(HUB_PLANS), seed, custom=HUB_PLANS) if zero == 2
+             else World5(len(ZERO_ID_PLANS), seed, custom=ZERO_ID_PLANS) if zero
              else World5(len(NEST_INDICES), seed, NEST_INDICES))
     try:
         w = world.w
@@ -1242,6 +1246,43 @@ def _run_nested(seed: int, carrier: int, zero: int = 0) -> tuple[list[tuple], st
                              f"whose payload is a tunnel DATA message naming circuit id {b.ids[0]} "
                              f"(circuit {b.index} of {b.origin}), inner destination {dest}")
                     viol += _labelled([(o, f"{d}: {where}") for o, d in world.check()], f"N/{kind}")
+        # the same route for the circuit-control messages: an outside datagram that is a tunnel create / created / extend /
+        # extended / ping / pong naming circuit b (whose keys the sender does not have) reaches node a.origin as "data" of
+        # circuit a.  Nothing about any circuit may change, and nothing may be sent on b's behalf.
+        from ipv8.messaging.anonymization.payload import (  # noqa: PLC0415
+            CreatedPayload, CreatePayload, ExtendedPayload, ExtendPayload, PingPayload, PongPayload)
+        adv = w.nodes["ADV"]
+        adv_key = adv.my_peer.public_key.key_to_bin()
+        g32 = world._garbage(32, "nk")
+        for b in world.plans:
+            for target_id, which in ((b.ids[0], "originator-side id"), (b.ids[-1], "exit-side id")):
+                forged = [
+                    ("extend", ExtendPayload(target_id, 7, adv_key, g32, adv.address)),
+                    ("create", CreatePayload(target_id, 7, adv_key, g32)),
+                    ("created", CreatedPayload(target_id, 7, g32, world._garbage(32, "na"), b"")),
+                    ("extended", ExtendedPayload(target_id, 7, g32, world._garbage(32, "na"), b"")),
+                    ("ping", PingPayload(target_id, 7)),
+                    ("pong", PongPayload(target_id, 7)),
+                ]
+                for name, payload in forged:
+                    if name == "create" and not world.holds(a.origin, target_id):
+                        continue        # anybody may ask a node to join a NEW circuit: nothing existing is touched
+                    world.seq += 1
+                    n_wire = len(w.wire_log)
+                    msg = world.prefix + bytes([payload.msg_id]) + ser.pack_serializable(payload)
+                    world.exit_tr[a.index].inject(msg, ("8.8.8.8", 8))
+                    w.flush()
+                    world.injections += 1
+                    where = (f"datagram from 8.8.8.8:8 to the exit socket of circuit {a.index} ({a.origin}, id {a.ids[0]}) "
+                             f"that is a tunnel {name} message naming circuit id {target_id} ({which} of circuit "
+                             f"{b.index} of {b.origin})")
+                    found = world.check()
+                    to_adv = [dg for dg in w.wire_log[n_wire:] if tuple(dg.dst) == tuple(adv.address)
+                              and dg.sender is not adv.endpoint]
+                    if to_adv:
+                        found.append(("control-message-from-outside-acted-on",
+                                      f"{world._name(to_adv[0].src)} sent {w.kind(to_adv[0])} to the adversary's node"))
+                    viol += _labelled([(o, f"{d}: {where}") for o, d in found], f"N/outside-{name}")
         if not viol:
             viol += _traffic(world, "N")
         return viol, "ran", world.digest(), world.injections
